@@ -1,24 +1,27 @@
 /* C19 --- DAG files are well formed and survive dump / read / convert (engine E3, see dag_sim.h).
  *
  * Per case (program, timing, section opening, W, schedule, number of file names, record-time options):
- *   roundtrip:     dr_dump() writes build/c19/scratch/w<k>/dr.dag; the file is parsed here byte by byte (header, n, m,
- *                  start clock, workers, size) and compared with the position-independent DAG made from the same
- *                  in-memory graph; dr_read_dag() of the file gives T and E byte-identical to what was dumped and an
- *                  equal string table (the two pointer members of the table excluded)
+ *   roundtrip:     dr_dump() writes the .dag file in this worker's scratch directory under build/c19/scratch/ and
+ *                  dr_read_dag() reads it back (see through_file() for the two ways the bytes travel).  The mapping
+ *                  dr_read_dag returns IS the file: it is compared here byte by byte (header, n, m, start clock,
+ *                  workers, size, T, E, string table) with the position-independent DAG this unit makes from the same
+ *                  in-memory graph with the library's own converter; T and E must be byte-identical, the string
+ *                  table equal (its two pointer members excluded, they must point into the mapping)
  *   structure:     an independent validator over dr_pi_dag (offsets, kinds, tree shape, edge order and ranges,
  *                  reachability in the tree and along edges, string indices) - on the dumped and on every converted DAG
  *   content:       every interval node of the file is the interval the simulator executed (kind, worker, clocks, work,
- *                  file names and lines of both ends)
+ *                  file names and lines of both ends); work / critical path (heaviest path along the file's explicit
+ *                  edges) / node counts of the file equal the oracle's
  *   chronological: the library's dr_pi_dag_chronological_traverse with a counting traverser
  *   shrink-totals: dr_copy_pi_dag under each of the 18 conversion settings; work, critical path (recomputed along the
  *                  explicit edges), node and edge totals of the converted DAG == those of the DAG it was made from;
- *                  converted DAGs are also validated, traversed, and (when they differ from the input) written with
- *                  dr_gen_pi_dag and read back
- * Record-time settings that leave the very same bytes in T/E/S as an earlier setting of the same execution are not
- * pushed through the file checks again (everything downstream is a function of those bytes).
+ *                  converted DAGs are also validated and traversed, and - when their input is the uncontracted
+ *                  recording, of which every other input is a contraction - written with dr_gen_pi_dag and read back
+ * Memoisation (sound: everything downstream is a function of these bytes): a record-time setting that leaves the very
+ * same bytes in T/E/S as an earlier setting of the same execution is not pushed through the file checks again; a
+ * conversion whose output has the bytes of its input or of an earlier conversion of the same input is not judged again.
  * 2..4 file names: on the serial execution (W = 1, first timing) under every record-time setting.
- * Converted DAGs are validated / replayed / totalled for every input, and additionally written to a file and read
- * back when the input is the uncontracted recording (the input every other one is a contraction of).
+ * Key prefixes: roundtrip:  structure:  content:  chronological:  shrink-totals:  abort:
  */
 #include "dag_sim.h"
 
@@ -247,27 +250,32 @@ static void free_pi(dr_pi_dag * G) { free(G->T); free(G->E); free(G->S); }
      direct : <scratch>/dr.dag, a regular file created by the library's fopen, read back by dr_read_dag, then removed.
               Used for every serial execution (W = 1): all programs x timings x option settings x file-name counts.
      relay  : with W > 1 the library's fopen/fwrite/fclose go to <scratch>/dr-pipe.dag, a FIFO in the same directory
-              whose read end this process holds; the bytes are stored with pwrite at offset 0 of <scratch>/dr-relay.dag
-              (kept open, never truncated or removed) and dr_read_dag reads that.  The library code exercised is the
+              whose read end this process holds; the bytes are stored with pwrite at offset 0 of <scratch>/dr-relay0.dag
+              (dr-relay1.dag for converted DAGs; kept open, never truncated or removed) and dr_read_dag reads that.  The library code exercised is the
               same (dr_pi_dag_dump writes through a FILE*, dr_read_dag opens and maps a regular file holding exactly
               those bytes); what is avoided is one file creation + removal per case, which on a journalled file
               system shared by 16 processes costs more than everything else together. */
-static int PIPE_RD = -1, RELAY_FD = -1; static char PIPE_PREFIX[260], RELAY_FN[260], SETUP_FOR[200];
+static int PIPE_RD = -1, RELAY_FD[2] = { -1, -1 }; static char PIPE_PREFIX[260], RELAY_FN[2][260], SETUP_FOR[200];   /* [0] recorded, [1] converted DAGs */
 static void relay_setup(void) {
   if (!strcmp(SETUP_FOR, SCRATCH)) return;
   strcpy(SETUP_FOR, SCRATCH);
-  if (PIPE_RD >= 0) close(PIPE_RD); if (RELAY_FD >= 0) close(RELAY_FD);
+  if (PIPE_RD >= 0) close(PIPE_RD);
+  for (int i = 0; i < 2; i++) if (RELAY_FD[i] >= 0) close(RELAY_FD[i]);
   char fn[270]; snprintf(PIPE_PREFIX, sizeof PIPE_PREFIX, "%s-pipe", SCRATCH); snprintf(fn, sizeof fn, "%s.dag", PIPE_PREFIX);
   unlink(fn); if (mkfifo(fn, 0644)) perror(fn);
   PIPE_RD = open(fn, O_RDONLY | O_NONBLOCK);
-  snprintf(RELAY_FN, sizeof RELAY_FN, "%s-relay.dag", SCRATCH);
-  RELAY_FD = open(RELAY_FN, O_RDWR | O_CREAT | O_TRUNC, 0644);
+  /* two relay files: the recorded DAG stays mapped (privately, but a private mapping still sees later writes to pages
+     it has not touched) while its conversions are written and read back */
+  for (int i = 0; i < 2; i++) {
+    snprintf(RELAY_FN[i], sizeof RELAY_FN[i], "%s-relay%d.dag", SCRATCH, i);
+    RELAY_FD[i] = open(RELAY_FN[i], O_RDWR | O_CREAT | O_TRUNC, 0644);
+  }
 }
 static void pipe_drain(void) { char junk[4096]; while (read(PIPE_RD, junk, sizeof junk) > 0) {} }
-static size_t relay_collect(void) {
+static size_t relay_collect(int which) {
   static char buf[1 << 17]; size_t n = 0; ssize_t x;
   while (n < sizeof buf && (x = read(PIPE_RD, buf + n, sizeof buf - n)) > 0) n += x;
-  if (n && pwrite(RELAY_FD, buf, n, 0) != (ssize_t)n) return 0;
+  if (n && pwrite(RELAY_FD[which], buf, n, 0) != (ssize_t)n) return 0;
   return n;
 }
 /* have the library write G (gen = 0: the recorded graph through dr_dump(); gen = 1: G itself through dr_gen_pi_dag)
@@ -282,9 +290,9 @@ static dr_pi_dag * through_file(dr_pi_dag * G, int gen, const char * which, cons
   if (gen) dr_gen_pi_dag(G); else dr_dump_();
   if (direct) { R = roundtrip(G, fn, which, extra, fszp, 0); unlink(fn); }   /* the mapping outlives the name */
   else {
-    size_t n = relay_collect();
+    size_t n = relay_collect(gen);
     if (!n) { char cls[100]; snprintf(cls, sizeof cls, "roundtrip:%s:no-file", which); found(cls, extra, "nothing was written"); *fszp = 0; return NULL; }
-    R = roundtrip(G, RELAY_FN, which, extra, fszp, n);
+    R = roundtrip(G, RELAY_FN[gen], which, extra, fszp, n);
   }
   return R;
 }
